@@ -129,6 +129,28 @@ pub fn pre_portal() -> RefState {
     s
 }
 
+/// Three instances nested two deep: W0 {n0 root → n1 (e0)}, portal on W0.n1 into W1 {n0 root → n1
+/// (e0)}, portal on W1.n1 into W2 {n0 root, n1 (attachment), n2}.  A rewrite inside W2 is reached
+/// through BOTH portal slots, so it reads both (descent chain).
+pub fn pre_nested() -> RefState {
+    let mut s = RefState::default();
+    s.instances.insert(0, RefInstance { root: 0, parent: None });
+    s.instances.insert(1, RefInstance { root: 0, parent: Some(RefSlot::Node(0, 1)) });
+    s.instances.insert(2, RefInstance { root: 0, parent: Some(RefSlot::Node(1, 1)) });
+    for n in 0..3u8 {
+        s.nodes.insert((0, n), 0);
+        s.nodes.insert((2, n), 0);
+    }
+    s.nodes.insert((1, 0), 0);
+    s.nodes.insert((1, 1), 0);
+    s.edges.insert((0, 0), RefEdge { from: 0, to: 1, ty: 0 });
+    s.edges.insert((1, 0), RefEdge { from: 0, to: 1, ty: 0 });
+    s.atts.insert(RefSlot::Node(0, 1), RefAtt::Descend(1));
+    s.atts.insert(RefSlot::Node(1, 1), RefAtt::Descend(2));
+    s.atts.insert(RefSlot::Node(2, 1), atom(0, b"A"));
+    s
+}
+
 /// The honest micro-program menu (index → program).
 pub fn menu() -> Vec<Program> {
     vec![
@@ -181,6 +203,8 @@ pub fn menu() -> Vec<Program> {
         ]),
         // 10 clear attachment on n1
         Program::new(vec![Step::SetNodeAtt { n: 1, v: 0 }]),
+        // 12 re-assert the portal W0.n1 -> W1 (writes the slot with the value it already holds)
+        // 13 re-assert the portal W1.n1 -> W2
         // 11 re-parent e0 (n0 -> n1 becomes n2 -> n1), keeps its attachment
         Program::new(vec![
             Step::RequireEdge { e: 0 },
@@ -191,6 +215,10 @@ pub fn menu() -> Vec<Program> {
                 ty: 0,
             },
         ]),
+        // 12
+        Program::new(vec![Step::SetNodeAtt { n: 1, v: 254 }]),
+        // 13
+        Program::new(vec![Step::SetNodeAtt { n: 1, v: 255 }]),
     ]
 }
 
@@ -260,6 +288,9 @@ pub fn scenarios(level: u8) -> Vec<Scenario> {
         // W0: new edge e2 (n2→n0), read-only, retype n2?  (program 5 retypes n1, which carries the
         // portal: a node upsert keeps the attachment) — W1: set / copy attachment, new edge
         scenario_multi("two-instance", pre_portal(), &[(0, &[2, 8, 5]), (1, &[0, 1, 2])], &[3]),
+        // nested portals: W0 program 12 re-asserts the OUTER portal slot (W0.n1 α), W1 program 13 the
+        // INNER one (W1.n1 α); both conflict with every rewrite inside W2 through its descent chain
+        scenario_multi("nested-portal", pre_nested(), &[(0, &[12, 2]), (1, &[13]), (2, &[0, 1, 5])], &[]),
     ];
     if level > 0 {
         v.push(scenario(
